@@ -187,6 +187,37 @@ fn judge_batch(b: &Batch) -> Verdict {
     }
 }
 
+/// Does the source define a @function / @mixin whose own body mentions its name
+/// (called or included again)?  Body = text up to the next line that is just `}`.
+fn self_recursive(src: &str) -> bool {
+    for kw in ["@function", "@mixin"] {
+        let mut from = 0;
+        while let Some(p) = src[from..].find(kw) {
+            let start = from + p + kw.len();
+            from = start;
+            let rest = &src[start..];
+            let name: String = rest
+                .trim_start()
+                .chars()
+                .take_while(|c| c.is_alphanumeric() || *c == '-' || *c == '_')
+                .collect();
+            if name.is_empty() {
+                continue;
+            }
+            let Some(open) = rest.find('{') else { continue };
+            let body = &rest[open..];
+            let end = body.find("\n}").unwrap_or(body.len());
+            let body = &body[..end];
+            let alt = name.replace('_', "-");
+            let alt2 = name.replace('-', "_");
+            if [name.as_str(), alt.as_str(), alt2.as_str()].iter().any(|n| body.contains(&format!("{n}(")) || body.contains(&format!("@include {n}"))) {
+                return true;
+            }
+        }
+    }
+    false
+}
+
 fn judge_single(c: &Case) -> Verdict {
     let (k, t) = run_batch(std::slice::from_ref(c)).remove(0);
     vp::report::EXECS.fetch_add(1, std::sync::atomic::Ordering::Relaxed);
@@ -197,7 +228,13 @@ fn judge_single(c: &Case) -> Verdict {
         // a Sass program may legitimately never finish (`@while` whose condition stays
         // truthy, e.g. after a one-character deletion in the corpus neighbourhood):
         // non-return of such an input says nothing about the property
-        "died" if t.starts_with("timeout") && c.src.contains("@while") => Verdict::Trivial,
+        "died" if t.starts_with("timeout") && (c.src.contains("@while") || self_recursive(&c.src)) => Verdict::Trivial,
+        // unbounded recursion of a user-defined function / mixin: the native stack overflows
+        // (a genuine defect, but one specific, recognisable cause: own signature)
+        "died" if !t.starts_with("timeout") && self_recursive(&c.src) => Verdict::fail_sig(
+            "died-in-self-recursive-callable",
+            format!("worker process died on an 8 MiB stack while evaluating a self-recursive @function/@mixin: {t}"),
+        ),
         "died" => Verdict::fail_sig(
             format!("died:{}", t.replace(|c: char| c.is_ascii_digit(), "")),
             format!("worker process died on an 8 MiB stack: {t}"),
@@ -782,7 +819,7 @@ fn main() {
         });
         run_cases(&ck, "corpus", &format!("{n} sass-spec inputs x {{scss expanded/compressed, css, precision 0, precision 20}}"), ck.tier.pick(60.0, 300.0), it, &[]);
 
-        if !quick {
+        if !quick || ck.is_replay() {
             // edit-distance-1 neighbourhood at byte-token boundaries: delete one token,
             // or insert one of 12 tokens, at every boundary; inputs <= 400 bytes
             let ins = ["{", "}", "(", ")", "&", "#{", "\"", "\\", "@", ":", ";", "*"];
